@@ -20,6 +20,7 @@ fn id_code(id: &[u8]) -> &'static str {
         b"5" => "b",
         b"05" => "c",
         b"10" => "d",
+        b"255" => "f",
         _ => "e",
     }
 }
@@ -50,10 +51,19 @@ pub fn type1_payload() -> Vec<u8> {
 }
 
 pub fn valid_alphabet() -> Vec<Letter> {
+    valid_alphabet_n(5, &IDS)
+}
+
+/// thorough tier: group sizes 2..=6 and six sequence ids
+pub fn valid_alphabet_wide() -> Vec<Letter> {
+    valid_alphabet_n(6, &[b"", b"0", b"5", b"05", b"10", b"255"])
+}
+
+fn valid_alphabet_n(max_n: u32, ids: &[&[u8]]) -> Vec<Letter> {
     let mut v = Vec::new();
-    for n in 2..=5u32 {
+    for n in 2..=max_n {
         for k in 1..=n {
-            for id in IDS {
+            for &id in ids {
                 let mut l = frag(n, k, id, false);
                 if n <= 3 && (id.is_empty() || id == b"5") {
                     l = l.core();
@@ -104,7 +114,14 @@ pub fn valid_alphabet() -> Vec<Letter> {
 }
 
 pub fn ext_alphabet() -> Vec<Letter> {
-    let mut v = valid_alphabet();
+    ext_alphabet_from(valid_alphabet())
+}
+
+pub fn ext_alphabet_wide() -> Vec<Letter> {
+    ext_alphabet_from(valid_alphabet_wide())
+}
+
+fn ext_alphabet_from(mut v: Vec<Letter>) -> Vec<Letter> {
     let inval: [(u32, u32); 11] = [
         (0, 0),
         (0, 1),
@@ -133,11 +150,17 @@ pub fn ext_alphabet() -> Vec<Letter> {
 }
 
 pub fn run_explorer(prop: &str, tier: Tier, ext: bool) -> J {
-    let letters = if ext { ext_alphabet() } else { valid_alphabet() };
+    let wide = tier == Tier::Thorough;
+    let letters = match (ext, wide) {
+        (true, false) => ext_alphabet(),
+        (false, false) => valid_alphabet(),
+        (true, true) => ext_alphabet_wide(),
+        (false, true) => valid_alphabet_wide(),
+    };
     let cfg = ExploreCfg {
         name: if ext { "ASM-CLOSURE(ext)".into() } else { "ASM-CLOSURE(valid)".into() },
         letters: letters.clone(),
-        max_states: if tier == Tier::Quick { 20_000 } else { 100_000 },
+        max_states: if tier == Tier::Quick { 20_000 } else { 200_000 },
         max_depth: if tier == Tier::Quick { 12 } else { 16 },
         max_secs: if tier == Tier::Quick { 40 } else { 600 },
     };
